@@ -278,8 +278,9 @@ func (c *Ctx) ruleForward(rule string) {
 			}
 			// calls of `method` in fn, with the trail of their receiver
 			type fwd struct {
-				call  *ssa.Call
-				trail string
+				call   *ssa.Call
+				trail  string
+				looped bool // the elements are visited in a loop of a helper that was handed the collection
 			}
 			var fwds []fwd
 			for _, b := range fn.Blocks {
@@ -290,6 +291,39 @@ func (c *Ctx) ruleForward(rule string) {
 					}
 					name := c.calledMethodName(call)
 					if name != method {
+						// a helper of the package that is handed a child and calls the method on it (on its elements, in
+						// a loop) and hands the verdict back
+						if helper := core.StaticBody(&call.Call); helper != nil && helper.Pkg == fn.Pkg && !call.Call.IsInvoke() {
+							for ai, a := range call.Call.Args {
+								if ai >= len(helper.Params) {
+									break
+								}
+								t, _ := c.fieldTrail(a, 0)
+								if t == "" {
+									continue
+								}
+								for _, hb := range helper.Blocks {
+									for _, hin := range hb.Instrs {
+										hcall, ok := hin.(*ssa.Call)
+										if !ok || c.calledMethodName(hcall) != method {
+											continue
+										}
+										recv := hcall.Call.Value
+										if !hcall.Call.IsInvoke() && len(hcall.Call.Args) > 0 {
+											recv = hcall.Call.Args[0]
+										}
+										prm := helper.Params[ai]
+										if !derivedFrom(recv, func(x ssa.Value) bool { return x == ssa.Value(prm) }) && !rangesOver(recv, prm) {
+											continue
+										}
+										if method == "ValidateReferences" && !c.resultReachesReturn(hcall) {
+											continue
+										}
+										fwds = append(fwds, fwd{call, t, blockInLoop(hcall.Block())})
+									}
+								}
+							}
+						}
 						continue
 					}
 					recv := call.Call.Value
@@ -297,7 +331,7 @@ func (c *Ctx) ruleForward(rule string) {
 						recv = call.Call.Args[0]
 					}
 					t, _ := c.fieldTrail(recv, 0)
-					fwds = append(fwds, fwd{call, t})
+					fwds = append(fwds, fwd{call, t, false})
 				}
 			}
 			for _, ch := range children {
@@ -313,7 +347,7 @@ func (c *Ctx) ruleForward(rule string) {
 						"references below "+ch.name+" are never linked / checked: they stay dangling (panic on first use) or unlinked references pass the check")
 					continue
 				}
-				if ch.coll && !blockInLoop(hit.call.Block()) {
+				if ch.coll && !blockInLoop(hit.call.Block()) && !hit.looped {
 					c.R.Bad(rule, k, c.M.InstrPos(hit.call), tname+"."+method+" visits only one element of "+ch.name, "the call on the collection's elements is not inside a loop")
 					continue
 				}
@@ -358,10 +392,39 @@ func (c *Ctx) ruleForward(rule string) {
 	c.R.Floor(rule, 20)
 }
 
+// rangesOver: v is an element (the value of a range, an indexed element) of the collection held by prm.
+func rangesOver(v ssa.Value, prm *ssa.Parameter) bool {
+	return derivedFrom(v, func(x ssa.Value) bool {
+		switch y := x.(type) {
+		case *ssa.Extract:
+			if nx, ok := y.Tuple.(*ssa.Next); ok {
+				if rg, ok := nx.Iter.(*ssa.Range); ok {
+					return rg.X == ssa.Value(prm)
+				}
+			}
+		case *ssa.Lookup:
+			return y.X == ssa.Value(prm)
+		case *ssa.IndexAddr:
+			return y.X == ssa.Value(prm)
+		}
+		return false
+	})
+}
+
 func (c *Ctx) resultReachesReturn(call *ssa.Call) bool {
 	refs := call.Referrers()
 	if refs == nil {
 		return false
+	}
+	// the verdict is one of the values the function returns (directly, or merged into a result variable)
+	if fn := call.Parent(); fn != nil {
+		if ei := core.ErrorResultIndex(fn.Signature); ei >= 0 {
+			for _, site := range core.RetSites(fn, ei) {
+				if core.Unwrap(site.Val) == ssa.Value(call) {
+					return true
+				}
+			}
+		}
 	}
 	for _, r := range *refs {
 		if _, ok := r.(*ssa.Return); ok {
@@ -524,17 +587,41 @@ func (c *Ctx) scopeAndRef(rule string) {
 					if mi, ok := v.(*ssa.MakeInterface); ok {
 						v = mi.X
 					}
-					isLookup := func(lk *ssa.Lookup) bool {
-						return standsFor(lk.X, fn.Params[1]) && c.M.ValPath(lk.Index) == g.Params[0].Name()+".IDValue"
-					}
-					if e, ok := v.(*ssa.Extract); ok {
-						if lk, ok := e.Tuple.(*ssa.Lookup); ok && isLookup(lk) {
-							fromTable = true
+					var isTableEntry func(v ssa.Value, in *ssa.Function, depth int) bool
+					isTableEntry = func(v ssa.Value, in *ssa.Function, depth int) bool {
+						isLookup := func(lk *ssa.Lookup) bool {
+							return standsFor(lk.X, fn.Params[1]) && c.M.ValPath(lk.Index) == in.Params[0].Name()+".IDValue"
 						}
+						if e, ok := v.(*ssa.Extract); ok {
+							if lk, ok := e.Tuple.(*ssa.Lookup); ok && isLookup(lk) {
+								return true
+							}
+						}
+						if lk, ok := v.(*ssa.Lookup); ok && isLookup(lk) {
+							return true
+						}
+						// the result of a worker of the group, every way out of which hands out such an entry
+						if call, idx, isCall := core.CallResult(v); isCall && depth < 3 {
+							w := core.StaticBody(&call.Call)
+							inGroup := false
+							for _, gg := range group {
+								if gg == w {
+									inGroup = true
+								}
+							}
+							if inGroup && w != in {
+								sites := core.RetSites(w, idx)
+								for _, site := range sites {
+									if !isTableEntry(site.Val, w, depth+1) {
+										return false
+									}
+								}
+								return len(sites) > 0
+							}
+						}
+						return false
 					}
-					if lk, ok := v.(*ssa.Lookup); ok && isLookup(lk) {
-						fromTable = true
-					}
+					fromTable = isTableEntry(v, g, 0)
 					switch {
 					case !matched:
 						c.R.Bad(rule, k, c.M.InstrPos(st), "reference linked regardless of the namespace", "applying one namespace re-points references that belong to another")
